@@ -5,6 +5,39 @@ props = [json.loads(l) for l in open('/verif/properties.jsonl')]
 ids = [p['id'] for p in props]
 
 CLAIMS = {
+ "C05": dict(cat="other", ref="DESIGN.md section 4, C05",
+   text="Per-iteration event constraints of every sequential stage, decided on all cut-point paths of the single stage goroutine (Map/FMap/Filter/TakeWhile/Take/Partition/Fold/ForEach/Void/Seq/ToSeq), Take's budget by interval analysis, Fold's accumulator provenance, one goroutine per stage, outputs closed on every exit. The list-image claim for every capacity and interleaving follows on paper from single goroutine + FIFO + exactly-once-per-iteration; schedules are not enumerated.",
+   note="assumes user functions terminate and do not touch the channels; Take's n >= 0; trusted: go/ssa, path engine, Go channel FIFO. Not decided: nothing is observed at run time.",
+   tech="static analysis: cut-point path enumeration over SSA with event lists, branch polarities and infeasible-path pruning; interval analysis"),
+ "C06": dict(cat="other", ref="DESIGN.md section 4, C06",
+   text="Pairing/typestate/ownership: single closer and exactly one close on every exit after the last send (or after wg.Wait with Done-after-last-send and Add = spawn count), every blocking operation classified (range over input, select with the stage's ctx.Done arm that exits, capacity-accounted send, wg.Wait), every loop cycle has a cancellation point and an exit, catch's false edge exits, no panic source, nothing delivered after an observed cancel (1 known finding: pipe.Fold). Termination/closure for every interleaving follows on paper.",
+   note="assumes inputs are eventually closed and user functions return; pipe.New is covered by C08; goroutine dumps are not taken",
+   tech="static analysis: typestate/ownership rules over cut-point paths of every spawned goroutine (SSA), closed-world summaries of the catch role"),
+ "C07": dict(cat="other", ref="DESIGN.md section 4, C07",
+   text="Shape of the error hand-off on every path of Emit/Map/FMap/Unfold (pipe) and Map/FMap (fork): exactly one catch(ctx, that error, the stage's exx), no output, no second application, false=>exit, true=>loop head; closed-world summaries of the eight catch/errch implementations tied to their exported constructors, pipe/fork sibling agreement, wrapper Apply = f(args). Which elements fail is a run-time quantity and is not enumerated.",
+   note="closed world: F/FF have unexported methods; trusted: go/ssa, path engine",
+   tech="static analysis: path rules on the error branch + summaries of interface implementations (closed world) + sibling cross-check"),
+ "C09": dict(cat="other", ref="DESIGN.md section 4, C09",
+   text="fork workers satisfy the per-iteration constraint of their pipe sibling (same rule template), receive only through one range loop, store to no captured variable (static no-data-race form), pool counting (Add = spawn trip count = par = accounted capacities), closes dominated by wg.Wait, C06 rule set on workers and closer, delegations forward to pipe with arguments in order, pipef maps kinds. Completion orders / race detector are dynamic and not decided.",
+   note="trusted: go/ssa, path engine, Go channel semantics (one receiver per value)",
+   tech="static analysis: sibling cross-check of path constraints, who-may-write census on captured cells, counted-loop trip counts"),
+ "C10": dict(cat="other", ref="DESIGN.md section 4, C10",
+   text="Accumulator provenance (every value reaching Combine's first argument is the goroutine's own m.Empty() or a previous Combine), one Combine per element/partial, collector trip count = spawn count = wg.Add = cap(partials) = par, one partial per worker before Done, single result then close. Equality with the sequential fold follows on paper given the user's monoid laws.",
+   note="assumes the monoid is associative/commutative with Empty as identity (premise); the genuine defect D7 (zero-value accumulator) was repaired by a fix: commit",
+   tech="static analysis: reaching-definition/provenance of the accumulator over phis and cells, counted-loop trip counts"),
+ "C11": dict(cat="other", ref="DESIGN.md section 4, C11",
+   text="Unfold: send(seed) precedes the single Apply(seed), result becomes next seed; Emit: index from 0, +1 on every back edge, value = Apply(i), exactly one time.Sleep(frequency) before each application; closing rules. Clock statements (k-th value not before k ticks) are NOT decided, only the pacing shape.",
+   note="assumes time.Sleep(d) returns no earlier than d",
+   tech="static analysis: loop-carried value stepping and must-pass-through over cut-point paths"),
+ "C12": dict(cat="other", ref="DESIGN.md section 4, C12",
+   text="Join: one copier per range element with wg.Add(len(in)) before the spawns, copier forwards each received element exactly once with a cancellable send, single closer after wg.Wait, Done after last send. Arrival orders are not decided.",
+   note="trusted: go/ssa, path engine, range-loop recognition",
+   tech="static analysis: counted-loop/range recognition + path constraints + WaitGroup ordering"),
+ "C13": dict(cat="other", ref="DESIGN.md section 4, C13",
+   text="ONLY the structure of the token scheme: cap(ctl)=ops, ops cancellable token sends per cycle, exactly one time.After(interval) wait per cycle, one token then one cancellable send per element in order, outputs closed. The rate bound and every timing statement of the property are NOT decided (they quantify over a clock).",
+   note="rate not decided; assumes time.After(d) fires no earlier than d",
+   tech="static analysis: counted-loop trip counts, must-pass-through, path constraints"),
+
  "C17": dict(cat="proof", ref="DESIGN.md section 4, C17",
    text="Complete static decision for the loop-free instance methods: ord.Compare's decision tree is evaluated under the three possible orderings (trichotomy) and must return LT/EQ/GT; Equal, ContraMap, From and the monoid constructors are matched as normalised SSA terms against their defining equations. All obligations must be discharged.",
    note="trusted: go/types, go/ssa (x/tools v0.50.0), Go spec for ==,<,> on int/string; floats (NaN) are outside the property (ord.Int/ord.String only)",
